@@ -199,7 +199,7 @@ pub fn run(tier: &str, seed: i64) -> Outcome {
                     acc.transitions += 1;
                     acc.count("hashes carried through castling / en passant / promotion entered into the table");
                     if let Ok(mut r) = REACHED.lock() {
-                        if r.len() < 4_000_000 {
+                        if r.len() < 20_000_000 {
                             r.push((k, format!("{} moves {}", ctx.pos.fen4(false), t)));
                         }
                     }
